@@ -9,4 +9,5 @@ CONSTANTS
   FixRet = FALSE
   FixAdd = FALSE
   Depth = 26
+  Loop = FALSE
 CHECK_DEADLOCK FALSE
